@@ -571,6 +571,7 @@ class Parser:
             if not (self.peek()[1] == "Some" and self.peek(1)[1] == "("):
                 raise Unsupported("if-let with a pattern other than Some(x)")
             self.i += 2
+            self.opt("mut")            # `Some(mut x)`: the binding is a local like any other
             name = self.ident()
             self.eat(")")
             self.eat("=")
@@ -786,6 +787,8 @@ class Gen:
             return "(List Nat)"   # a byte string: the list of its bytes
         if ty.startswith("Vec<"):
             return f"(List {self.lean_ty(ty[4:-1])})"
+        if ty.startswith("KeySet<"):
+            return "(List Nat)"   # a `Map<K, ()>` used as a set (K an integer / address / symbol): the list of its keys
         if ty.startswith("BytesN<"):
             return "Nat"     # an opaque identifier, only passed through
         if ty == "bool":
@@ -955,6 +958,21 @@ class Gen:
             return (f"(envr.{e[1][1]} {' '.join(self.pure(a, env)[0] for a in args_)})", rty_)
         if e[0] == "call" and e[1] == ("path", ["Vec", "new"]) and all(self.strip(a) in (("var", "e"), ("var", "_e")) for a in e[2]):
             return ("[]", "Vec<?>")
+        if e[0] == "call" and e[1] == ("path", ["Map", "new"]) and all(self.strip(a) in (("var", "e"), ("var", "_e")) for a in e[2]):
+            return ("[]", "KeySet<?>")     # a `Map<K, ()>` used as a set: the list of its keys
+        if e[0] == "call" and e[1] == ("path", ["Vec", "from_iter"]) and len(e[2]) == 2 and self.strip(e[2][0]) in (("var", "e"), ("var", "_e")):
+            # `Vec::from_iter(e, v.iter().filter(|x| pure predicate))`
+            it_ = self.strip(e[2][1])
+            if it_[0] == "mcall" and it_[2] == "filter" and len(it_[3]) == 1:
+                src_ = self.strip(it_[1])
+                cl_ = self.strip(it_[3][0])
+                if src_[0] == "mcall" and src_[2] == "iter" and not src_[3] and cl_[0] == "closure" and len(cl_[1]) == 1:
+                    vl, vt = self.pure(src_[1], env)
+                    if vt.startswith("Vec<"):
+                        x_ = self.fresh(cl_[1][0] + "_")
+                        pl = self.cond(cl_[2], dict(env, **{cl_[1][0]: (x_, vt[4:-1])}))
+                        return (f"(List.filter (fun {x_} => decide {pl}) {vl})", vt)
+            raise Unsupported("Vec::from_iter of this iterator")
         if e[0] == "struct":
             flds = getattr(self, "structs", {}).get(e[1])
             if flds is None or [f for f, _ in flds] != [f for f, _ in e[2]]:
@@ -1270,6 +1288,9 @@ class Gen:
             al, at_ = self.pure(args[0], env)
             elt = rt[4:-1]
             return (f"(decide ({as_nat(al, at_) if elt in NATTY else al} ∈ {rl}))", "bool")
+        if rt.startswith("KeySet<") and name == "contains_key" and len(args) == 1:
+            al, at_ = self.pure(args[0], env)
+            return (f"(decide ({as_nat(al, at_) if at_ in NATTY or at_ == 'int' else al} ∈ {rl}))", "bool")
         if rt.startswith("Vec<") and name == "is_empty" and not args:
             return (f"(List.isEmpty {rl})", "bool")
         if rt.startswith("Vec<") and name == "len" and not args:
@@ -1622,6 +1643,13 @@ class Gen:
                         return k(f"(some {a})", f"Option<{t}>")
                     some_code = self.tr(cl[2], dict(env, **{pv: (nb, rt_[7:-1])}), ksome, ret)
                     return f"(optCase {r}\n (fun {nb} =>\n {some_code})\n ({k('none', 'Option<' + seen.get('t', '?') + '>')}))"
+                if rt_.startswith("Vec<") and name == "get_unchecked" and len(args) == 1:
+                    # `v.get_unchecked(i)`: the element, a panic outside the bounds
+                    il, it_ = self.pure(args[0], env)
+                    if not (it_ in NATTY or it_ == "int"):
+                        raise Unsupported("get_unchecked with an index of type " + it_)
+                    v = self.fresh("v")
+                    return f"(Comp.unwrap ({r}[{as_nat(il, it_)}]?) fun {v} =>\n {k(v, rt_[4:-1])})"
                 if rt_.startswith("Option<") and name == "expect" and len(args) == 1 and self.strip(args[0])[0] == "str":
                     v = self.fresh("v")
                     return f"(Comp.unwrap {r} fun {v} =>\n {k(v, rt_[7:-1])})"
@@ -1713,6 +1741,18 @@ class Gen:
             elif st[0] == "expr" and self.strip(st[1])[0] == "mcall" and self.strip(st[1])[2] in ("push_back", "append", "extend_from_array", "remove") \
                     and self.strip(self.strip(st[1])[1])[0] == "var":
                 acc.add(self.strip(self.strip(st[1])[1])[1])     # a growing collection is a re-bound variable
+            elif st[0] == "expr" and self.strip(st[1])[0] == "mcall" and self.strip(st[1])[2] == "set" and len(self.strip(st[1])[3]) == 2 \
+                    and self.strip(self.strip(st[1])[1])[0] == "var" and self.strip(self.strip(st[1])[3][1]) == ("paren_unit",):
+                acc.add(self.strip(self.strip(st[1])[1])[1])     # `seen.set(k, ())` on a local `Map<K, ()>`
+            elif st[0] == "expr" and self.strip(st[1])[0] == "iflet":
+                e_ = self.strip(st[1])
+                inner_ = set()
+                self.assigned_vars(self.as_stmts(e_[3])[1], inner_)
+                inner_.discard(e_[1])
+                inner_ -= {x[1] for x in self.as_stmts(e_[3])[1] if x[0] == "let"}
+                acc |= inner_
+                if e_[4] is not None and e_[4][0] == "block":
+                    self.assigned_vars(self.as_stmts(e_[4])[1], acc)
             elif st[0] == "while":
                 self.assigned_vars(self.as_stmts(st[2])[1], acc)
             elif st[0] == "for":
@@ -1961,6 +2001,14 @@ class Gen:
                     return self.tr(e[3][0], env, kpb, ret)
             if s[0] == "expr":
                 e = self.strip(s[1])
+                if e[0] == "mcall" and e[2] == "set" and len(e[3]) == 2 and self.strip(e[1])[0] == "var" \
+                        and env.get(self.strip(e[1])[1], ("", ""))[1].startswith("KeySet<") and self.strip(e[3][1]) == ("paren_unit",):
+                    vn = self.strip(e[1])[1]
+                    old, vt_ = env[vn]
+                    kl, kt = self.pure(e[3][0], env)
+                    return go(i + 1, dict(env, **{vn: (f"({as_nat(kl, kt) if kt in NATTY or kt == 'int' else kl} :: {old})", "KeySet<" + kt + ">")}))
+            if s[0] == "expr":
+                e = self.strip(s[1])
                 if e[0] == "mcall" and e[2] == "remove" and len(e[3]) == 1 and self.strip(e[1])[0] == "var" \
                         and env.get(self.strip(e[1])[1], ("", ""))[1].startswith("Vec<"):
                     # `v.remove(i);` on a local vector (the returned element is dropped)
@@ -2131,7 +2179,7 @@ class Gen:
                 return ("block", b[1] + [("expr", b[2])], None)
             if t_[0] == "match" and any(p_[0] == "vstruct" for p_, _ in t_[2]):
                 return ("block", b[1] + [("expr", b[2])], None)
-            if t_[0] == "iflet" and t_[4] is None and t_[3][0] == "block" and t_[3][2] is None:
+            if t_[0] == "iflet" and t_[4] is None and t_[3][0] == "block" and self.as_stmts(t_[3])[2] is None:
                 # a trailing `if let Some(x) = v { statements }` without else: a statement
                 return ("block", b[1] + [("expr", b[2])], None)
         return b
@@ -2182,7 +2230,13 @@ class Gen:
         if c_[0] == "mcall" and c_[2] == "rev" and not c_[3] and self.strip(c_[1])[0] == "bin" and self.strip(c_[1])[1] == "..=":
             return self.tr_for_range_rev(var, self.strip(c_[1]), body, env, k_after, ret)
         zipped = None
-        if c_[0] == "mcall" and c_[2] == "zip" and len(c_[3]) == 1:
+        if c_[0] == "bin" and c_[1] == "..":
+            # `for i in lo..hi`: the list of the indices, ascending
+            ll, lt = self.pure(c_[2], env)
+            hl, ht = self.pure(c_[3], env)
+            ll, hl = as_nat(ll, lt), as_nat(hl, ht)
+            cl, ct = f"(List.range' {ll} ({hl} - {ll}))", "Vec<u32>"
+        elif c_[0] == "mcall" and c_[2] == "zip" and len(c_[3]) == 1:
             # `a.iter().zip(b)`: the list of pairs, as long as the shorter side
             l_ = self.strip(c_[1])
             if l_[0] == "mcall" and l_[2] == "iter" and not l_[3]:
@@ -2200,7 +2254,7 @@ class Gen:
         if not ct.startswith("Vec<"):
             raise Unsupported(f"for over {ct}")
         elt = ct[4:-1]
-        muts = sorted(self.assigned_vars(body[1], set()))
+        muts = sorted(self.assigned_vars(body[1], set()) - {x[1] for x in body[1] if x[0] == "let"})
         for m in muts:
             if m not in env:
                 raise Unsupported(f"loop assigns unknown variable {m}")
@@ -2238,8 +2292,7 @@ class Gen:
             r, v = self.fresh("r"), self.fresh("v")
             return (f"(Comp.bind ({name}{ev} {cl} {stp(env)}{' '.join(env[v_][0] for v_ in others)}) fun {r} =>\n"
                     f" (optCase {r}\n (fun {v} => Comp.ok {v})\n ({k_after(env)})))")
-        if not muts and not carry_st:
-            raise Unsupported("for loop without loop-carried variables")
+        unit_loop = not muts and not carry_st     # a loop run for its panics only (`for t in ts { if bad(t) { panic } }`)
         others = [v for v in sorted(env) if v not in muts and not v.startswith("$") and not env[v][1].startswith(("Key:", "Client:"))]
         self.loops += 1
         name = f"{self.cur_ns}.{self.cur_fn}.loop{self.loops}"
@@ -2251,11 +2304,16 @@ class Gen:
         if carry_st:
             plist = f"(st_ : {self.cur_ns}.Store) " + plist
         rparts = [self.lean_ty(env[m][1]) for m in muts] + ([f"{self.cur_ns}.Store"] if carry_st else [])
-        rty = " × ".join(rparts)
+        rty = " × ".join(rparts) if not unit_loop else "Unit"
         tup = lambda en: "(" + ", ".join([en[m][0] for m in muts] + ([en["$st"][0]] if carry_st else [])) + ")"
         rd = self.cur_ns in getattr(self, "reads_ns", set())
         ev = " envr" if rd else ""
-        again = lambda en: f"{name}{ev} rest_ {(en['$st'][0] + ' ') if carry_st else ''}{' '.join(en[v][0] for v in params)}"
+        st_in_env = "$st" in env and not carry_st
+        if st_in_env:
+            # a reader loop inside a state-passing namespace: the store is a constant parameter
+            penv["$st"] = ("st_", "Store")
+            plist = f"(st_ : {self.cur_ns}.Store) " + plist
+        again = lambda en: f"{name}{ev} rest_ {(en['$st'][0] + ' ') if (carry_st or st_in_env) else ''}{' '.join(en[v][0] for v in params)}"
         if isinstance(var, tuple):
             if zipped is None or len(var) != 2:
                 raise Unsupported("tuple pattern in a for loop over a non-zip")
@@ -2273,7 +2331,7 @@ class Gen:
         for jx, m in enumerate(muts + (["$st"] if carry_st else [])):
             proj = st if nres == 1 else st + "".join(".2" for _ in range(jx)) + (".1" if jx < nres - 1 else "")
             env2[m] = (proj, env[m][1])
-        return f"(Comp.bind ({name}{ev} {cl} {(env['$st'][0] + ' ') if carry_st else ''}{' '.join(env[v][0] for v in params)}) fun {st} =>\n {k_after(env2)})"
+        return f"(Comp.bind ({name}{ev} {cl} {(env['$st'][0] + ' ') if (carry_st or st_in_env) else ''}{' '.join(env[v][0] for v in params)}) fun {st} =>\n {k_after(env2)})"
 
     def loop_params(self, env):
         others = [v for v in sorted(env) if not v.startswith("$")]
@@ -2491,6 +2549,13 @@ FILES_FT = [("FungibleT", "packages/tokens/src/fungible/storage.rs", ["allowance
 STORE_CTI = {"Topics": {"ClaimTopics": ([], "Vec<u32>"), "ClaimTopicIssuers": (["u32"], "Vec<Address>")}}
 FILES_CTI = [("Topics", "packages/tokens/src/rwa/claim_topics_and_issuers/mod.rs", []),
              ("Topics", "packages/tokens/src/rwa/claim_topics_and_issuers/storage.rs", ["get_claim_topics", "add_claim_topic"])]
+STORE_CTIF = {"TopicsF": {"ClaimTopics": ([], "Vec<u32>"), "ClaimTopicIssuers": (["u32"], "Vec<Address>"),
+                          "TrustedIssuers": ([], "Vec<Address>"), "IssuerClaimTopics": (["Address"], "Vec<u32>")}}
+FILES_CTIF = [("TopicsF", "packages/tokens/src/rwa/claim_topics_and_issuers/mod.rs", []),
+              ("TopicsF", "packages/tokens/src/rwa/claim_topics_and_issuers/storage.rs",
+               ["get_claim_topics", "get_trusted_issuers", "get_claim_topic_issuers", "get_trusted_issuer_claim_topics",
+                "is_trusted_issuer", "has_claim_topic", "add_claim_topic", "remove_claim_topic", "add_trusted_issuer",
+                "remove_trusted_issuer", "update_issuer_claim_topics", "validate_topics_exist", "validate_no_duplicate_topics"])]
 STORE_ISS = {"Issuer": {"ClaimNonce": (["Address", "u32"], "u32"), "RevokedClaim": (["Bytes32"], "bool")}}
 READS_ISS = {"Issuer": {"network_id": "Bytes", "current_contract_address": "Address", "ledger_timestamp": "u64",
                         "to_xdr": ("purefn", ["Address"], "Bytes"), "keccak256": ("purefn", ["Bytes"], "Bytes32"),
@@ -3191,6 +3256,8 @@ def main():
                                           "Context": "Controller.Context"})
         elif "--issuer" in sys.argv:
             txt = translate(repo, FILES_ISS, reads=READS_ISS, store=STORE_ISS)
+        elif "--topics-full" in sys.argv:
+            txt = translate(repo, FILES_CTIF, reads={"TopicsF": {}}, store=STORE_CTIF)
         elif "--topics" in sys.argv:
             txt = translate(repo, FILES_CTI, reads={"Topics": {}}, store=STORE_CTI)
         elif "--ownable" in sys.argv:
